@@ -9,10 +9,9 @@ from common import REPO, Ctx, enc_text, exc_name
 
 PID = "C18"
 PROPS_MODULE = "NumbersModel.Props.C18"
-THEOREMS_FULL = [f"NumbersModel.Props.C18.{t}" for t in (
+THEOREMS = [f"NumbersModel.Props.C18.{t}" for t in (
     "tokenize_lossless", "tokenize_total", "tokenize_terminates", "quotes_not_split", "dq_literal_wellformed",
-    "sq_literal_wellformed", "tables_as_modelled", "dispatch_chars_end_tokens")]
-THEOREMS = []
+    "sq_literal_wellformed", "tables_as_modelled", "dispatch_chars_end_tokens", "error_codes_ok")]
 PARTIAL = {"reader_output_accepted": "clause 4 (every formula the reader emits is accepted) is not a theorem yet: it needs C08's "
                                      "renderer model; it is exercised on all formulas read from the fixtures (oracle, exploration)"}
 RULE = ("quick: every string of length <= 3 over a 35-symbol alphabet (letters, digits, E, ., space, newline, all operator/"
